@@ -76,8 +76,8 @@ _TMPROOT = "/dev/shm" if os.path.isdir("/dev/shm") and os.access("/dev/shm", os.
 
 
 # ------------------------------------------------------------------------------ executing one text
-def evaluate(text, run, ticks=TICKS):
-    """Build (and optionally run) text -> dict(outcome, dump json, run json)."""
+def evaluate(text, run, ticks=TICKS, files=None):
+    """Build (and optionally run) text (+ files pulled in with `load`) -> dict(outcome, dump json, run json)."""
     from vp.flo.build import build_text, run_bounded
     from vp.flo import dump
     logdir = None
@@ -86,7 +86,7 @@ def evaluate(text, run, ticks=TICKS):
             logdir = tempfile.mkdtemp(prefix="vplog", dir=_TMPROOT)
             text = text.replace(metagen.LOGDIR, logdir)
         with env.cpu_watchdog(60):
-            b = build_text(text)
+            b = build_text(text, files=files)
             res = {"outcome": "ok" if (b.ok and b.exc is None) else b.outcome, "dump": None, "run": None,
                    "err": str(b.exc)[:200] if b.exc is not None else ""}
             if res["outcome"] != "ok":
@@ -152,9 +152,43 @@ def make_case(src, canon, gen_lines, seed, intensity, kinds, run):
 
 def case_variant(case, kinds=None, reseed=0, intensity=None):
     items = case["gen_lines"] if case.get("gen_lines") else metagen.plan_logical_lines(case["canon"])
-    return metagen.layout(items, random.Random(case["seed"] + reseed),
-                          case["intensity"] if intensity is None else intensity,
-                          kinds=case["kinds"] if kinds is None else kinds)
+    kinds = case["kinds"] if kinds is None else kinds
+    intensity = case["intensity"] if intensity is None else intensity
+    if case.get("split") and case.get("gen_lines"):
+        return split_variant(case, items, kinds, reseed, intensity)[:3]
+    return metagen.layout(items, random.Random(case["seed"] + reseed), intensity, kinds=kinds)
+
+
+LOADED = "part.flo"
+
+
+def split_variant(case, items, kinds, reseed, intensity):
+    """The same commands spread over two files: commands [k, m) go to a second script that the main script pulls in
+    with `load` at that point. Both files are laid out with the claimed transformations; the loaded file ends right
+    after its last physical line (no final newline), so a connective-led continuation line can be the very last line
+    of a loaded file. -> (main text, used, ntoks, {file name: text})"""
+    n = len(items)
+    a, b = case["split"][:2]
+    k = 1 + a % max(1, n - 1)
+    m = k + 1 + b % max(1, n - k)
+    m = min(m, n)
+    rnd = random.Random(case["seed"] + reseed)
+    head, used1, nt1 = metagen.layout(items[:k], rnd, intensity, kinds=kinds)
+    part, used2, nt2 = metagen.layout(items[k:m], rnd, intensity, kinds=kinds)
+    tail, used3, nt3 = metagen.layout(items[m:], rnd, intensity, kinds=kinds) if m < n else ("", [], [])
+    part = part.rstrip("\n")
+    if case["split"][2] % 3 == 0:
+        part += "\n"
+    main = head + ("" if head.endswith("\n") else "\n") + "load %s\n" % LOADED + tail
+    return main, used1 + used2 + used3, nt1 + nt2 + nt3, {LOADED: part}
+
+
+def variant_files(case, kinds=None, reseed=0, intensity=None):
+    if case.get("split") and case.get("gen_lines"):
+        items = case["gen_lines"]
+        return split_variant(case, items, case["kinds"] if kinds is None else kinds, reseed,
+                             case["intensity"] if intensity is None else intensity)[3]
+    return None
 
 
 _CANON_CACHE = {}
@@ -179,7 +213,7 @@ def run_case(case):
     """-> (failures, info)"""
     ref = canon_result(case)
     text, used, ntoks = case_variant(case)
-    got = evaluate(text, case["run"] and ref["run"] is not None, case.get("ticks", TICKS))
+    got = evaluate(text, case["run"] and ref["run"] is not None, case.get("ticks", TICKS), files=variant_files(case))
     info = {"used": used, "ntoks": ntoks, "outcome": ref["outcome"], "ran": ref["run"] is not None,
             "variant": text}
     diff = compare(ref, got)
@@ -196,7 +230,8 @@ def run_case(case):
     def breaks(subset):
         for t in range(5):
             txt, _, _ = case_variant(case, subset, reseed=t, intensity=1.0 if t else None)
-            if compare(ref, evaluate(txt, run, ticks)) is not None:
+            fls = variant_files(case, subset, reseed=t, intensity=1.0 if t else None)
+            if compare(ref, evaluate(txt, run, ticks, files=fls)) is not None:
                 return True
         return False
 
@@ -219,7 +254,7 @@ def run_case(case):
                 break
     if culprit and tuple(culprit.split("+")) not in _CULPRITS:
         _CULPRITS.append(tuple(culprit.split("+")))
-    sig = "layout:%s" % (culprit or "combination")
+    sig = "layout:%s%s" % (culprit or "combination", "@loaded-file" if case.get("split") else "")
     return [(sig, "%s (%s) [program %s, layout seed %d, kinds %s]" % (what, kind, case["src"], case["seed"],
                                                                       ",".join(case["kinds"])))], info
 
@@ -231,6 +266,8 @@ def execute(case):
     classes = ["src:" + ("plan" if case["src"].startswith("plan:") else "gen"),
                "canon->" + info["outcome"], "ran" if info["ran"] else "structure-only"]
     classes += ["kind:" + k for k in kinds_used]
+    if case.get("split"):
+        classes.append("spread-over-a-loaded-file")
     if case["src"].startswith("plan:"):
         classes.append(case["src"])
     sample = {"src": case["src"], "kinds": kinds_used, "variant_head": info["variant"][:300]}
@@ -249,8 +286,12 @@ seed_strategy = st.integers(0, 2 ** 31 - 1)
 @st.composite
 def gen_case(draw):
     prog = draw(metagen.small_program())
-    return make_case("gen", metagen.canonical_text(prog["lines"]), prog["lines"], draw(seed_strategy),
+    case = make_case("gen", metagen.canonical_text(prog["lines"]), prog["lines"], draw(seed_strategy),
                      draw(intensity_strategy), draw(kinds_strategy), True)
+    if draw(st.integers(0, 2)) == 0:
+        # the same commands spread over the main script and a script it loads
+        case["split"] = [draw(st.integers(0, 40)), draw(st.integers(0, 40)), draw(st.integers(0, 2))]
+    return case
 
 
 def plan(tier):
